@@ -77,17 +77,26 @@ pub fn run_job(job: &Job) -> Value {
                 verif::set_forces(job.force.iter().filter_map(|(i, b)| op_by_byte(*b).map(|o| (*i, o))).collect());
             }
         }
+        let mut consumed: i64 = -1;
         let r = if job.mode == "seed" {
             g.generate()
         } else {
-            g.generate_from_arbitrary(&input)
+            // same as generate_from_arbitrary(&input), but the harness keeps the Unstructured so
+            // that it can report how many input bytes the generation consumed
+            let mut u = arbitrary::Unstructured::new(&input);
+            let r = {
+                let mut src = verif::GenerationSource::Arbitrary(unsafe { &mut *(&mut u as *mut arbitrary::Unstructured) });
+                g.verif_generate_with(&mut src)
+            };
+            consumed = (input.len() - u.len()) as i64;
+            r
         };
         let ev = verif::stop_recording();
-        (r.map_err(|e| format!("{e}")), ev)
+        (r.map_err(|e| format!("{e}")), ev, consumed)
     }));
-    let (res, msg, bytes, ev) = match outcome {
-        Ok((Ok(b), ev)) => ("ok", String::new(), b, ev),
-        Ok((Err(m), ev)) => ("err", m, Vec::new(), ev),
+    let (res, msg, bytes, ev, consumed) = match outcome {
+        Ok((Ok(b), ev, c)) => ("ok", String::new(), b, ev, c),
+        Ok((Err(m), ev, c)) => ("err", m, Vec::new(), ev, c),
         Err(p) => {
             let ev = verif::stop_recording();
             let m = p
@@ -95,9 +104,11 @@ pub fn run_job(job: &Job) -> Value {
                 .cloned()
                 .or_else(|| p.downcast_ref::<&str>().map(|s| s.to_string()))
                 .unwrap_or_else(|| "panic".into());
-            ("panic", m, Vec::new(), ev)
+            ("panic", m, Vec::new(), ev, -1)
         }
     };
+    // the input bytes travel to TLC only where the entropy model applies (no mutators, moderate size)
+    let with_inp = job.mode == "bytes" && job.cfg.muts.is_empty() && input.len() <= 4096 && job.warm == 0 && job.force.is_empty();
     let evj: Vec<Value> = ev.iter().map(|e| event_json(e, &order)).collect();
     json!({
         "id": job.id,
@@ -113,6 +124,9 @@ pub fn run_job(job: &Job) -> Value {
         "mode": if job.mode == "seed" {1} else {2},
         "seed": job.seed.to_string(),
         "input": hex(&input),
+        "hasinp": if with_inp {1} else {0},
+        "inp": if with_inp { input.clone() } else { Vec::new() },
+        "consumed": consumed,
         "res": match res {"ok" => 1, "err" => 2, _ => 3},
         "msg": msg,
         "bytes": bytes,
